@@ -8,7 +8,7 @@
    C18_canon_m_correct_cdom and its three consequences; bit lists and struct lists are open and
    covered by the run. *)
 From CV Require Import Value.ValueEq Value.CanonSpec Value.CanonProofs Value.CanonProofs2 Value.CanonProofs3
-                       Value.EqualM Value.CanonM Value.EqualProofs Value.CanonMProofs Value.CanonMStruct Value.CanonMWords Value.CanonMData Value.CanonMHeap Value.CanonMLoop Value.CanonMInd Value.CanonMTop Value.Den.
+                       Value.EqualM Value.CanonM Value.EqualProofs Value.CanonMProofs Value.CanonMStruct Value.CanonMWords Value.CanonMData Value.CanonMHeap Value.CanonMLoop Value.CanonMInd Value.CanonMTop Value.CanonMListC Value.Den.
 From CV Require Import Core.ReaderFacts Core.SafetyProofs Core.ArithFacts.
 Open Scope Z_scope.
 
@@ -192,6 +192,17 @@ Theorem C18_canon_m_cdom_nonvacuous :
                    canonicalize cfg0 repaired 20 msg_ex 1000000 root_ex = (KOk bs, rl') /\ canon v = Some bs.
 Proof. exact canon_m_cdom_nonvacuous. Qed.
 Print Assumptions C18_canon_m_cdom_nonvacuous.
+
+(* towards the struct-list case (open): the element size canonicalList computes for a struct list is
+   the specification's -- the maxima of the elements' truncated section sizes *)
+Theorem C18_elem_size_list : forall m, msg_ok m -> forall p vs,
+  wf_ptr m p -> p_valid p = true -> p_kind p = KList -> p_bit p = false ->
+  DataSize (p_size p) mod 8 = 0 -> zlen vs = p_len p ->
+  (forall i, 0 <= i < p_len p -> den true m 0 [] (elem_ptr p i) (nthv vs i)) ->
+  elem_size true true true m p (Z.to_nat (p_len p)) 0 (mkOS 0 0)
+  = Ok (mkOS (8 * Z.of_nat (max_len sdata (map norm vs))) (Z.of_nat (max_len sptrs (map norm vs)))).
+Proof. exact elem_size_list. Qed.
+Print Assumptions C18_elem_size_list.
 
 (* the three claims about Canonicalize itself, unconditional on the proved domain *)
 Theorem C18_canon_m_layout_independent : forall fuel c fx m1 rl1 s1 v1 m2 rl2 s2 v2 bs1 bs2 r1 r2,
